@@ -156,7 +156,7 @@ fn hiccup_check(case: &Case, payload: &[u8], wire: &[u8], events: Vec<Ev>, ctx: 
             }
         }
     }
-    if clean && delivered != payload && !matches!(case.framing, Framing::Close) {
+    if clean && delivered != payload {
         return Outcome::fail(
             format!("C01:false-end-after-transient-error:{}", case.framing.name()),
             format!("end of body reported after {} of {} payload bytes", delivered.len(), payload.len()),
